@@ -11,6 +11,7 @@ from .common import clist, cz, cnat
 IMPORTS = "From Verif Require Import Values OutputAsync."
 STOP_ID = 999
 LATE_ID = 998
+AFTER_ID = 997
 
 
 class C12(common.Spec):
@@ -81,7 +82,15 @@ class C12(common.Spec):
                 log.append(['stop', loop.vt_us])
                 if case['stop_data']:
                     log.append(['put', loop.vt_us, STOP_ID])
-                return orig_stop()
+                r = orig_stop()
+                if case.get('put_after_stop'):
+                    # an event that arrives when stop() has been called is too late: nothing may run for it,
+                    # in particular not after the stop_data
+                    try:
+                        out.event('put', value=AFTER_ID)
+                    except Exception:       # noqa
+                        pass
+                return r
             out.stop = stop_wrapper
             task = asyncio.create_task(circuit.run_forever())
             await circuit.wait_init()
@@ -148,6 +157,8 @@ class C12(common.Spec):
             yield dict(case, stop_data=False)
         if case.get('put_at_stop'):
             yield dict(case, put_at_stop=False)
+        if case.get('put_after_stop'):
+            yield dict(case, put_after_stop=False)
         if case['guard_us']:
             yield dict(case, guard_us=0)
 
@@ -168,9 +179,11 @@ def gen_case(rng):
                           'fail' if rng.random() < 0.2 else 'ok'] for i in range(len(puts))}
     script[str(STOP_ID)] = [rng.choice([50_000, 100_000]), 'ok']
     script[str(LATE_ID)] = [rng.choice([50_000, 100_000]), 'ok']
+    script[str(AFTER_ID)] = [50_000, 'ok']
     stop = rng.choice([times[-1], times[-1] + 50_000, times[-1] + 100_000, times[-1] + 1_000_000])
     return dict(mode=mode, guard_us=guard, puts=puts, script=script, stop_us=stop,
-                stop_data=rng.random() < 0.5, put_at_stop=rng.random() < 0.25)
+                stop_data=rng.random() < 0.5, put_at_stop=rng.random() < 0.25,
+                put_after_stop=rng.random() < 0.25)
 
 
 def check(run):
